@@ -135,6 +135,39 @@ fn stmt(e: &Expr) -> R<String> {
         },
         Expr::Call(c) => {
             if let Expr::Accessor(Accessor::Ident(id)) = c.obj.as_ref() {
+                if c.attr_name.is_none() && id.vis().is_private() && &id.inspect()[..] == "for!" {
+                    // `for! lo..<hi, i => body`: counting loop over a right-open range, one plain parameter, body of simple chunks
+                    if c.args.pos_args.len() != 2 || !c.args.kw_args.is_empty() || c.args.var_args.is_some() || c.args.kw_var.is_some() {
+                        return Err("for-args".into());
+                    }
+                    let (lo, hi) = match &c.args.pos_args[0].expr {
+                        Expr::BinOp(b) if b.op.kind == TokenKind::RightOpen => (expr(&b.lhs)?, expr(&b.rhs)?),
+                        _ => return Err("for-iterable".into()),
+                    };
+                    let Expr::Lambda(l) = &c.args.pos_args[1].expr else { return Err("for-body".into()) };
+                    let ps = &l.params;
+                    if ps.non_defaults.len() != 1 || !ps.defaults.is_empty() || ps.var_params.is_some() || ps.kw_var_params.is_some() || !ps.guards.is_empty() {
+                        return Err("for-params".into());
+                    }
+                    let name = match ps.non_defaults[0].inspect() {
+                        Some(n) if &n[..] != "_" && !n.contains('!') && !n.contains('$') => n.to_string(),
+                        _ => return Err("for-param-name".into()),
+                    };
+                    let mut o = format!("(for {} {} {} (body", quote(&name), lo, hi);
+                    for ch in l.body.iter() {
+                        if matches!(ch, Expr::Dummy(_) | Expr::TypeAsc(_)) {
+                            continue;
+                        }
+                        let t = stmt(ch)?;
+                        if t.starts_with("(for ") {
+                            return Err("nested-for".into());
+                        }
+                        o.push(' ');
+                        o.push_str(&t);
+                    }
+                    o.push_str("))");
+                    return Ok(o);
+                }
                 if c.attr_name.is_none() && id.vis().is_private() && &id.inspect()[..] == "print!" {
                     if !c.args.kw_args.is_empty() || c.args.var_args.is_some() || c.args.kw_var.is_some() {
                         return Err("print-args".into());
@@ -167,6 +200,9 @@ const STORE_NAME: u8 = 90;
 const LOAD_CONST: u8 = 100;
 const LOAD_NAME: u8 = 101;
 const COMPARE_OP: u8 = 107;
+const GET_ITER: u8 = 68;
+const FOR_ITER: u8 = 93;
+const JUMP_BACKWARD: u8 = 140;
 const JUMP_FORWARD: u8 = 110;
 const JUMP_IF_FALSE_OR_POP: u8 = 111;
 const POP_JUMP_FORWARD_IF_FALSE: u8 = 114;
@@ -228,6 +264,9 @@ fn decode(c: &CodeObj) -> R<String> {
             JUMP_IF_TRUE_OR_POP => out.push_str(&format!(" (jumpIfTrueOrPop {})", arg)),
             POP_JUMP_FORWARD_IF_FALSE => out.push_str(&format!(" (popJumpIfFalse {})", arg)),
             JUMP_FORWARD => out.push_str(&format!(" (jumpForward {})", arg)),
+            GET_ITER => out.push_str(" (getIter)"),
+            FOR_ITER => out.push_str(&format!(" (forIter {})", arg)),
+            JUMP_BACKWARD => out.push_str(&format!(" (jumpBackward {})", arg)),
             BINARY_OP => {
                 let name = match arg { 0 => "add", 10 => "sub", 5 => "mul", 2 => "floordiv", 6 => "mod", _ => return Err(format!("binary-op-arg:{}", arg)) };
                 expect_cache(&mut i, 1)?;
@@ -249,7 +288,7 @@ fn decode(c: &CodeObj) -> R<String> {
             }
             other => return Err(format!("opcode:{}", other)),
         }
-        if was_ext && !matches!(op, JUMP_IF_FALSE_OR_POP | JUMP_IF_TRUE_OR_POP | POP_JUMP_FORWARD_IF_FALSE | JUMP_FORWARD) {
+        if was_ext && !matches!(op, JUMP_IF_FALSE_OR_POP | JUMP_IF_TRUE_OR_POP | POP_JUMP_FORWARD_IF_FALSE | JUMP_FORWARD | FOR_ITER | JUMP_BACKWARD) {
             return Err("extended-arg-on-non-jump".into());
         }
     }
